@@ -74,15 +74,25 @@ def h_capitalflow(run, cfg):
     PR4 = {'a': [100.0, 105.0, 95.0, 101.5], 'b': [37.5, 33.0, 41.25, 40.0]}
     data = frame(run, dts, ['a', 'b'], lambda i, c: PR4[c][i])
     flow = cfg['flow']
+    ran = {}
+
+    class Flow(A.CapitalFlow):
+        # the real CapitalFlow; the harness only notes on which dates it actually ran (a scheduler earlier in the stack may stop the stack)
+        def __call__(self, target):
+            if target is live.get('s'):
+                ran[target.now] = ran.get(target.now, 0.0) + self.amount
+            return super().__call__(target)
+    live = {}
     stacks = {
-        'flow_only': [A.CapitalFlow(flow)],
-        'flow_then_idle': [A.CapitalFlow(flow), A.RunOnce(), A.SelectAll(), A.WeighSpecified(a=0.5, b=0.25), A.Rebalance()],
-        'rebalance_then_flow': [A.RunDaily(), A.SelectAll(), A.WeighSpecified(a=0.5, b=0.25), A.Rebalance(), A.CapitalFlow(flow)],
-        'flow_then_rebalance': [A.CapitalFlow(flow), A.SelectAll(), A.WeighSpecified(a=0.5, b=0.25), A.Rebalance()],
+        'flow_only': [Flow(flow)],
+        'flow_then_idle': [Flow(flow), A.RunOnce(), A.SelectAll(), A.WeighSpecified(a=0.5, b=0.25), A.Rebalance()],
+        'rebalance_then_flow': [A.RunDaily(), A.SelectAll(), A.WeighSpecified(a=0.5, b=0.25), A.Rebalance(), Flow(flow)],
+        'flow_then_rebalance': [Flow(flow), A.SelectAll(), A.WeighSpecified(a=0.5, b=0.25), A.Rebalance()],
     }
     s = B.Strategy('s', stacks[cfg['stack']])
     cap = run.real('cap', 10 ** 4, 10 ** 7)
     t = B.Backtest(s, data, initial_capital=cap, integer_positions=False)
+    live['s'] = t.strategy
     try:
         t.run()
     except ZeroDivisionError:
@@ -95,9 +105,10 @@ def h_capitalflow(run, cfg):
     run.check_near(P.iloc[0], 100.0, EPS_P, 'starts-at-100')
     run.check_near(V.iloc[0], cap, 1e-6, 'initial-capital-enters-as-flow')
     for i in range(1, len(idx)):
-        base = V.iloc[i - 1] + flow
+        f_i = ran.get(idx[i], 0.0)
+        base = V.iloc[i - 1] + f_i
         run.check_near(P.iloc[i] * base, P.iloc[i - 1] * V.iloc[i], EPS_P * 1000, 'index-recurrence', 'date %s' % idx[i])
-        run.check_near(st.flows.iloc[i], flow, 1e-6, 'flow-row', str(idx[i]))
+        run.check_near(st.flows.iloc[i], f_i, 1e-6, 'flow-row', str(idx[i]))
 
 
 def _scale_script(B, run, cfg, lam):
